@@ -23,6 +23,8 @@ LEVEL = "proof"
 DEPENDS = [
     ("C12", {"only_rules": ["SETTER"], "configs": ["default"],
              "why": "a limit that cannot be lifted makes JsonParser reject valid documents"}),
+    ("C04", {"why": "'the token tree mirrors the document, each pair with its exact span' is observed through the Pairs "
+                    "views (iteration, as_span, into_inner, JSON dump), whose agreement with the token stream C04 decides"}),
 ]
 JSON = "grammars/src/grammars/json.pest"
 SCALARS = [(0, 0xD7FF), (0xE000, 0x10FFFF)]
